@@ -325,5 +325,59 @@ func c08(r *mon.Run) {
 				t.Nontrivial("zero:" + strconv.Itoa(i))
 			}
 		}}
-	r.Exec(main, nonArr, two, zero)
+	// typed slices of pointers with nil entries (null elements of the JSON form), sliced right after a longer
+	// slice of the same element type was sliced (whatever view or buffer the first query used must not show through)
+	type pnode struct {
+		K float64
+		S string
+	}
+	ptrSlice := func(pattern, n int) ([]*pnode, []interface{}) {
+		var ps []*pnode
+		var gs []interface{}
+		for k := 0; k < n; k++ {
+			if pattern>>(uint(k)%6)&1 == 1 {
+				ps, gs = append(ps, nil), append(gs, nil)
+				continue
+			}
+			ps = append(ps, &pnode{float64(k), fmt.Sprint("s", k)})
+			gs = append(gs, map[string]interface{}{"K": float64(k), "S": fmt.Sprint("s", k)})
+		}
+		return ps, gs
+	}
+	npat := 24
+	pn := mon.Workload{Name: "pointer-slices-with-nil-entries", N: T * npat * 3,
+		Do: func(i int, t *mon.Tally) {
+			tr := triples[i/3%T]
+			pattern := []int{0, 1, 2, 5, 10, 22, 26, 42, 63, 31, 47, 55, 3, 6, 12, 24, 48, 33, 18, 36, 9, 45, 54, 27}[i/3/T%npat]
+			n := []int{6, 3, 8}[i%3]
+			ps, gs := ptrSlice(pattern, n)
+			full, _ := ptrSlice(0, 9)
+			apiSearch("[:]", full)      // an earlier, longer slice of the same element type
+			apiSearch("[::-1].K", full) // and one with a right-hand side
+			st := gen.StSliceS(tr[0], tr[1], tr[2])
+			var tree *gen.Expr
+			switch i % 2 {
+			case 0:
+				tree = gen.Chain(nil, st)
+			default:
+				tree = gen.Chain(nil, st, gen.StField("K"))
+			}
+			expr := gen.SpellTight(tree)
+			res := ref.RefSet(tree, gs, gen.Quirks{})
+			t.Eval()
+			for k, o := range []mon.Observed{apiSearch(expr, ps), apiCompiledSearch(expr, ps)} {
+				if !o.Panicked && o.Err == nil {
+					o.V = docs.ToGeneric(o.V, false)
+				}
+				if !matches(res, o) {
+					r.Violate(&mon.Violation{Workload: "pointer-slices-with-nil-entries", Index: i, API: []string{"Search", "Compile+Search"}[k], Expr: expr, Doc: gs,
+						DocDesc: "a []*T whose nil entries are the nulls of " + ref.Canon(gs), Expected: expectedString(res), Observed: o.String(), Class: "pointer-slices-with-nil-entries: differs from the JSON form"})
+					return
+				}
+			}
+			if nonNull(res) {
+				t.Nontrivial("pn:" + strconv.Itoa(i))
+			}
+		}}
+	r.Exec(main, nonArr, two, zero, pn)
 }
